@@ -89,6 +89,23 @@ impl ProgProperty for C03 {
                     record_bc_notes(&[Some(j.clone())], stats, "jit-forms");
                 }
                 Some(j) => {
+                    if matches!(j.end, End::Cut) && matches!(run.exit, crate::child::Exit::Timeout) && !judge::FAST_REJECT.load(std::sync::atomic::Ordering::Relaxed) {
+                        // Both interpreters finished inside the short window and agree; the JIT runs the same
+                        // optimised IR and is still going. Alone, with 20 s (40x what the interpreters needed):
+                        let alone = judge::run_child(&c.program, &c.input, c.bits, &tri[2..3], r, std::time::Duration::from_secs(20));
+                        let jo = alone.obs.iter().find(|o| o.cfg == 0);
+                        match jo {
+                            Some(o) if matches!(o.end, End::Returned(_)) => {
+                                if o.events != ir.events {
+                                    return Some(Outcome::Fail(Fail { kind: "vote-mismatch".into(), detail: format!("[{}] JIT (run alone) differs from IR interpreter and bytecode interpreter, which agree: {} vs {} events", tri[2].describe(c.bits), o.events.len(), ir.events.len()), cfg: Some(2) }));
+                                }
+                            }
+                            Some(o) if matches!(o.end, End::Cut) && matches!(alone.exit, crate::child::Exit::Timeout) => {
+                                return Some(Outcome::Fail(Fail { kind: "vote-hang".into(), detail: format!("[{}] JIT still running after 20 s alone ({} events logged) where the IR interpreter and the bytecode interpreter both finished within the {} ms vote window with {} events", tri[2].describe(c.bits), o.events.len(), 500, ir.events.len()), cfg: Some(2) }));
+                            }
+                            _ => {}
+                        }
+                    }
                     if let End::Panicked(m) = &j.end {
                         return Some(Outcome::Fail(Fail { kind: "panic".into(), detail: format!("[{}] {m}", tri[2].describe(c.bits)), cfg: None }));
                     }
